@@ -88,7 +88,7 @@ fn check_damage(w: &World, pre: &format::RawArchive, cx: &Cx, f: &str, d: Dmg, n
             let last_hunk_of_incomplete: BTreeSet<&str> = pre
                 .bands
                 .values()
-                .filter(|b| !b.is_closed())
+                .filter(|b| !b.tail.present_nonempty())
                 .filter_map(|b| b.hunks.last().map(|h| h.relpath.as_str()))
                 .collect();
             for (e, prov) in &reference {
